@@ -40,10 +40,12 @@ def _is_depth_lvalue(t):
     return False
 
 
-def check_fn(fn, attach_short):
-    """-> (ok, detail, n attach sites)"""
+def check_fn(fn, attach_short, helper_keys=(), F=None):
+    """-> (ok, detail, n attach sites); helper_keys: keys of lambdas / private helpers that attach without a
+    guard of their own - a call to one of them is an attach site of the caller"""
     attach = [(n, b) for n, b, rk, ev in fn.calls()
-              if strip_targs(n.get("fn") or "").rsplit("::", 1)[-1] == attach_short]
+              if strip_targs(n.get("fn") or "").rsplit("::", 1)[-1] == attach_short or
+              (F is not None and helper_keys and any(t.key in helper_keys for t in F.targets(n)))]
     if not attach:
         return None
     succ_blocks = {b.id for b, ev, c in success_returns(fn)}
@@ -106,11 +108,24 @@ def run_nestbound(ctx, rep, rule="NESTBOUND"):
     n = 0
     fired = False
     for short in tab.get("nest_attach_calls", []):
+        # lambdas / file-local helpers that attach without a guard of their own hand the obligation to their callers
+        helpers = set()
+        rev = {}
+        for k_, outs in F.callgraph().items():
+            for o in outs:
+                rev.setdefault(o, set()).add(k_)
+        for fn in F.fns.values():
+            cs = [F.fns[c] for c in rev.get(fn.key, ()) if c in F.fns]
+            member_helper = bool(fn.cls) and cs and all(c.cls and strip_targs(c.cls) == strip_targs(fn.cls) for c in cs)
+            if fn.key in dec and (fn.is_lambda or "(anonymous namespace)" in fn.name or member_helper):
+                r = check_fn(fn, short)
+                if r is not None and not r[0]:
+                    helpers.add(fn.key)
         for fn in F.fns.values():
             is_ctl = fn.name.startswith("verif_control::nest_")
-            if fn.key not in dec and not is_ctl:
+            if (fn.key not in dec and not is_ctl) or fn.key in helpers:
                 continue
-            r = check_fn(fn, short if not is_ctl else "nest_attach")
+            r = check_fn(fn, short if not is_ctl else "nest_attach", helpers, F)
             if r is None:
                 continue
             ok, detail, k = r
